@@ -72,6 +72,13 @@ Theorem C07_reserved_names_refused :
 Proof. exact issue_reserved_refused. Qed.
 Print Assumptions C07_reserved_names_refused.
 
+(* the payload of a JWT is a JSON object: for claims of any other type nothing is issued (repair F29) *)
+Theorem C07_non_object_claims_refused :
+  forall E claims paths (max_decoys : option BinNums.Z) cnf header,
+    (forall kvs, claims <> JObj kvs) -> issue E claims paths max_decoys cnf header = Fail.
+Proof. exact issue_non_object_refused. Qed.
+Print Assumptions C07_non_object_claims_refused.
+
 (* a cnf claim of the caller cannot coexist with the holder key the issuer writes under cnf: refused (repair F21) *)
 Theorem C07_own_cnf_with_key_binding_refused :
   forall E claims paths (max_decoys : option BinNums.Z) k header,
